@@ -1,9 +1,10 @@
 """Proof-stability test: run every T1 unit with several z3 random seeds; every obligation must be discharged each time.
 An obligation that is proved with one seed and not with another is a brittle proof (future false alarm) and must be
-repaired with hints.  Usage: tools/stability.py [nseeds]"""
+repaired with hints.  Usage: tools/stability.py [nseeds] [unit-name-substring]"""
 import os, subprocess, sys, json
 ROOT = os.path.dirname(os.path.dirname(os.path.abspath(__file__)))
 n = int(sys.argv[1]) if len(sys.argv) > 1 else 5
+flt = sys.argv[2] if len(sys.argv) > 2 else ''
 code = r'''
 import sys, json, multiprocessing as mp
 sys.path[:0] = [%r, %r]
@@ -15,9 +16,9 @@ def run(name):
     except Exception as e:
         return [(name, 'EXC ' + repr(e)[:200])]
 with mp.get_context('fork').Pool(16) as p:
-    res = p.map(run, list(units.UNITS))
+    res = p.map(run, [u for u in units.UNITS if %r in u])
 print(json.dumps([x for r in res for x in r]))
-''' % (ROOT, os.path.join(ROOT, '.deps'))
+''' % (ROOT, os.path.join(ROOT, '.deps'), flt)
 bad = {}
 for seed in range(1, n + 1):
     env = dict(os.environ, TTVC_Z3_SEED=str(seed * 7919))
